@@ -124,6 +124,26 @@ static long scan_emitted(TaskState &t) {
     return (long)e;
 }
 
+static void after_generate(World &w, TaskState &t, PrngObj &o, const uint8_t *outp, size_t size, int model_prop, bool model_on);
+// A generator's entropy callback that draws 32 bytes from another generator ("master") of the same caller: a legal way
+// to build a hierarchy. The master's call is checked exactly like a top-level generate.
+static void nested_draw(World &w, TaskState &t, PrngObj &m, uint8_t out32[32]) {
+    CurOp &c = t.cur;
+    PrngObj *save_gen = c.gen; uint8_t *save_buf = c.genbuf; size_t save_size = c.gensize; size_t save_req = c.dev_req;
+    std::vector<EntropyReq> save_reqs; save_reqs.swap(m.reqs);
+    uint8_t tmp[32];
+    for (int i = 0; i < 32; i++) tmp[i] = w.sentinel[i & 63];
+    const uint8_t *save_sent = c.sentinel;
+    c.gen = &m; c.genbuf = tmp; c.gensize = 32; c.sentinel = w.sentinel; c.dev_req = 1000 + save_req * 8;   // the master's own requests take full deliveries
+    bump(w, CT_F_NESTED_DRAW);
+    tinyjambu_prng_generate((tinyjambu_prng_state_t *)m.m.p(), tmp, 32);
+    c.genbuf = nullptr;
+    after_generate(w, t, m, tmp, 32, C15, (w.armed == C15 || w.armed == PR_NONE));
+    memcpy(out32, tmp, 32);
+    m.reqs.swap(save_reqs);
+    c.gen = save_gen; c.genbuf = save_buf; c.gensize = save_size; c.dev_req = save_req; c.sentinel = save_sent;
+}
+
 extern "C" size_t sim_device(void *user_data, unsigned char *buf, size_t size) {
     PrngObj *o = (PrngObj *)user_data;
     TaskState &t = *o->owner;
@@ -141,6 +161,8 @@ extern "C" size_t sim_device(void *user_data, unsigned char *buf, size_t size) {
     memset(r.buf, 0, 32);
     uint8_t tmp[32];
     fill_bytes(tmp, 32, c.op ? c.op->dseed : 1, 0xD000 + req);
+    if (o->master && o->master != c.gen && o->master->st == ST_LIVE && o->master->m.base && !o->master->system && !o->master->master)
+        nested_draw(w, t, *o->master, tmp);   // the entropy comes from another generator of the same caller
     if (c.op && (c.op->d & 0xFFFFFFFFu) == req + 1 && k > 0) tmp[(c.op->d >> 32) ? (size_t)k - 1 : 0] ^= 0x01; // twin run: flip the first or the last delivered byte
     memcpy(r.buf, tmp, (size_t)k);
     memcpy(buf, tmp, (size_t)k);   // exactly k bytes are written
@@ -811,6 +833,104 @@ static void prng_status_check(World &w, PrngObj &o, int rc, bool any_req, const 
     else check_pass(w, C17);
 }
 
+// Everything that is checked after one tinyjambu_prng_generate() call on generator o has returned: the C16 budget monitor,
+// the C15/C18 model comparison, the C17 not-constant check, the logs. Shared by P_GEN and by nested draws (a generator
+// whose entropy callback draws from another generator of the same caller).
+static void after_generate(World &w, TaskState &t, PrngObj &o, const uint8_t *outp, size_t size, int model_prop, bool model_on) {
+    (void)t;
+    bump(w, CT_P_PRNG_GEN);
+    // --- C16 monitor (API-visible facts only)
+    {
+        size_t prev = 0; bool bad = false; std::string why;
+        size_t nreq = 0;
+        for (auto &r : o.reqs) {
+            size_t e = r.emitted < 0 ? prev : (size_t)r.emitted;
+            if (e < prev) e = prev;
+            size_t d = e - prev;
+            if (d > 0) {
+                o.since += d;
+                if (o.since + 32 * o.feeds_since > o.L && !bad) { bad = true; why = u2s(o.since) + " bytes emitted (+" + u2s(o.feeds_since) + " feeds) before an entropy request with limit " + u2s(o.L); }
+            }
+            if (nreq > 0 && d > 0) bump(w, CT_P_PRNG_AUTORESEED_MID);
+            if (nreq == 0 && e > 0) bump(w, CT_P_PRNG_AUTORESEED_MID);
+            o.since = 0; o.feeds_since = 0; prev = e; nreq++;
+            if (r.k != 32 && !r.system) bump(w, CT_P_PRNG_SHORT_ON_AUTO);
+            if (r.k != 32) bump(w, CT_P_PRNG_RESEED_FAIL);
+        }
+        if (nreq >= 2) bump(w, CT_P_PRNG_AUTORESEED_TWICE);
+        size_t tail = size - std::min(prev, size);
+        if (tail > 0) {
+            o.since += tail;
+            if (o.since + 32 * o.feeds_since > o.L && !bad) { bad = true; why = u2s(o.since) + " bytes emitted (+" + u2s(o.feeds_since) + " feeds) since the last entropy request with limit " + u2s(o.L); }
+        }
+        if (o.since == o.L && size) bump(w, CT_P_PRNG_GEN_TO_EDGE);
+        if (o.since > 1048576 - 64 && size) bump(w, CT_P_PRNG_OVER_1M);
+        if (w.armed == C16 || w.armed == PR_NONE) {
+            uint32_t lc = o.L == 32 ? 0 : o.L < 1024 ? 1 : o.L == 1024 ? 2 : o.L < 1048576 ? 3 : 4;
+            uint32_t sc = size == 0 ? 0 : size < 32 ? 1 : size == 32 ? 2 : size <= o.L ? 3 : 4;
+            state(w, 0x160000u | (lc << 8) | (sc << 4) | (uint32_t)std::min<size_t>(nreq, 3) | (o.feeds_since ? 0x1000u : 0u));
+        }
+        if (bad) report(w, C16, "budget-exceeded", why);
+        else check_pass(w, C16);
+    }
+    // --- C15 / C18 model
+    if (model_on && o.model_valid) {
+        std::vector<uint8_t> exp(size);
+        size_t pos = 0; bool mism = false; std::string why;
+        std::vector<EntropyReq> reqs = o.reqs;
+        size_t ri = 0;
+        while (pos < size) {
+            if (o.counter > o.limit) {
+                if (ri >= reqs.size()) { mism = true; why = "model expects an entropy request before output byte " + u2s(pos) + " of this call but none was made"; break; }
+                const EntropyReq &r = reqs[ri++];
+                if (r.emitted >= 0 && (size_t)r.emitted != pos) { mism = true; why = "entropy request observed after " + std::to_string(r.emitted) + " bytes of this call, model expects it after " + u2s(pos); break; }
+                prng_model_reseed(w, o, r);
+            }
+            size_t n = std::min<size_t>(32, size - pos);
+            uint8_t H[32];
+            model_hash(w, H, o.V, 32);
+            memcpy(exp.data() + pos, H, n);
+            uint8_t pv[33]; pv[0] = 3; memcpy(pv + 1, o.V, 32);
+            model_hash(w, H, pv, 33);
+            uint32_t carry = o.counter; int chain = 0, maxchain = 0;
+            // V = V + H + C + counter (big-endian 256-bit)
+            uint8_t cb[32]; memset(cb, 0, 32);
+            cb[31] = (uint8_t)o.counter; cb[30] = (uint8_t)(o.counter >> 8); cb[29] = (uint8_t)(o.counter >> 16); cb[28] = (uint8_t)(o.counter >> 24);
+            carry = 0;
+            for (int i = 31; i >= 0; i--) {
+                uint32_t s = (uint32_t)o.V[i] + H[i] + o.C[i] + cb[i] + carry;
+                o.V[i] = (uint8_t)s; carry = s >> 8;
+                if (carry) { chain++; if (chain > maxchain) maxchain = chain; } else chain = 0;
+            }
+            if (maxchain >= 2) bump(w, CT_P_PRNG_CARRY_CHAIN);
+            o.counter++;
+            pos += n;
+        }
+        if (!mism && ri < reqs.size()) { mism = true; why = "the generator made " + u2s(reqs.size()) + " entropy requests during this call, the model " + u2s(ri); }
+        if (!mism && size && memcmp(exp.data(), outp, size) != 0) {
+            size_t k = 0; while (k < size && exp[k] == outp[k]) k++;
+            mism = true; why = "output differs from Hash_DRBG model at byte " + u2s(k) + " of " + u2s(size);
+        }
+        uint32_t cc = o.counter == 1 ? 0 : o.counter < o.limit ? 1 : o.counter == o.limit ? 2 : 3;
+        state(w, 0x150000u | (cc << 8) | (uint32_t)std::min<size_t>(reqs.size(), 3) << 4 | (size == 0 ? 0 : size < 32 ? 1 : size == 32 ? 2 : size % 32 ? 3 : 4));
+        if (mism) { o.model_valid = false; report(w, model_prop, "drbg-mismatch", why); }
+        else check_pass(w, model_prop);
+    }
+    // --- C17 (3): full output blocks of one instance are pairwise distinct and not all-zero
+    if ((w.armed == C17 || w.armed == PR_NONE) && size >= 32 && o.blocks.size() < 4096) {
+        for (size_t b = 0; b + 32 <= size && o.blocks.size() < 4096; b += 32) {
+            if (all_zero(outp + b, 32)) report(w, C17, "constant-output", "generator emitted an all-zero 32-byte block");
+            uint64_t h = hash_bytes(outp + b, 32, 0xB10C);
+            for (uint64_t x : o.blocks) if (x == h) { report(w, C17, "constant-output", "generator emitted the same 32-byte block twice"); break; }
+            o.blocks.push_back(h);
+        }
+        check_pass(w, C17);
+    }
+    if (o.out_log.size() < (1u << 20)) o.out_log.insert(o.out_log.end(), outp, outp + std::min<size_t>(size, 8192));
+    for (auto &r : o.reqs) o.status_log.push_back(100 + r.k);
+    o.reqs.clear();
+}
+
 static void do_prng(World &w, TaskState &t, const Op &op, int index) {
     PrngObj &o = t.p[op.obj % NOBJ];
     ensure(w, t, o.m, sizeof(tinyjambu_prng_state_t), 0x500 + (uint64_t)op.obj);
@@ -828,6 +948,11 @@ static void do_prng(World &w, TaskState &t, const Op &op, int index) {
         size_t clen = (op.flags & F_NOCUSTOM) ? 0 : custom.size();
         o.system = (op.flags & (F_SYSTEM | F_NULLCB)) != 0;
         if (o.system) o.ever_system = true;
+        o.master = nullptr;
+        if ((op.flags & F_NESTED) && !o.system) {
+            PrngObj &mm = t.p[op.c % NOBJ];
+            if (&mm != &o && mm.st == ST_LIVE && !mm.system && !mm.master) { o.master = &mm; o.nested_involved = true; mm.nested_involved = true; }
+        }
         if (o.flip_op >= 0 && o.out_log.size() < o.flip_out_off + 16) o.flip_op = -1; // nothing was generated after the short delivery
         o.reqs.clear();
         if (o.st == ST_LIVE) bump(w, CT_F_ABANDON);
@@ -864,97 +989,7 @@ static void do_prng(World &w, TaskState &t, const Op &op, int index) {
         o.reqs.clear();
         { CallScope cs(t); tinyjambu_prng_generate(st, out.p, size); }
         c.genbuf = nullptr;
-        bump(w, CT_P_PRNG_GEN);
-        // --- C16 monitor (API-visible facts only)
-        {
-            size_t prev = 0; bool bad = false; std::string why;
-            size_t nreq = 0;
-            for (auto &r : o.reqs) {
-                size_t e = r.emitted < 0 ? prev : (size_t)r.emitted;
-                if (e < prev) e = prev;
-                size_t d = e - prev;
-                if (d > 0) {
-                    o.since += d;
-                    if (o.since + 32 * o.feeds_since > o.L && !bad) { bad = true; why = u2s(o.since) + " bytes emitted (+" + u2s(o.feeds_since) + " feeds) before an entropy request with limit " + u2s(o.L); }
-                }
-                if (nreq > 0 && d > 0) bump(w, CT_P_PRNG_AUTORESEED_MID);
-                if (nreq == 0 && e > 0) bump(w, CT_P_PRNG_AUTORESEED_MID);
-                o.since = 0; o.feeds_since = 0; prev = e; nreq++;
-                if (r.k != 32 && !r.system) bump(w, CT_P_PRNG_SHORT_ON_AUTO);
-                if (r.k != 32) bump(w, CT_P_PRNG_RESEED_FAIL);
-            }
-            if (nreq >= 2) bump(w, CT_P_PRNG_AUTORESEED_TWICE);
-            size_t tail = size - std::min(prev, size);
-            if (tail > 0) {
-                o.since += tail;
-                if (o.since + 32 * o.feeds_since > o.L && !bad) { bad = true; why = u2s(o.since) + " bytes emitted (+" + u2s(o.feeds_since) + " feeds) since the last entropy request with limit " + u2s(o.L); }
-            }
-            if (o.since == o.L && size) bump(w, CT_P_PRNG_GEN_TO_EDGE);
-            if (o.since > 1048576 - 64 && size) bump(w, CT_P_PRNG_OVER_1M);
-            if (w.armed == C16 || w.armed == PR_NONE) {
-                uint32_t lc = o.L == 32 ? 0 : o.L < 1024 ? 1 : o.L == 1024 ? 2 : o.L < 1048576 ? 3 : 4;
-                uint32_t sc = size == 0 ? 0 : size < 32 ? 1 : size == 32 ? 2 : size <= o.L ? 3 : 4;
-                state(w, 0x160000u | (lc << 8) | (sc << 4) | (uint32_t)std::min<size_t>(nreq, 3) | (o.feeds_since ? 0x1000u : 0u));
-            }
-            if (bad) report(w, C16, "budget-exceeded", why);
-            else check_pass(w, C16);
-        }
-        // --- C15 / C18 model
-        if (model_on && o.model_valid) {
-            std::vector<uint8_t> exp(size);
-            size_t pos = 0; bool mism = false; std::string why;
-            std::vector<EntropyReq> reqs = o.reqs;
-            size_t ri = 0;
-            while (pos < size) {
-                if (o.counter > o.limit) {
-                    if (ri >= reqs.size()) { mism = true; why = "model expects an entropy request before output byte " + u2s(pos) + " of this call but none was made"; break; }
-                    const EntropyReq &r = reqs[ri++];
-                    if (r.emitted >= 0 && (size_t)r.emitted != pos) { mism = true; why = "entropy request observed after " + std::to_string(r.emitted) + " bytes of this call, model expects it after " + u2s(pos); break; }
-                    prng_model_reseed(w, o, r);
-                }
-                size_t n = std::min<size_t>(32, size - pos);
-                uint8_t H[32];
-                model_hash(w, H, o.V, 32);
-                memcpy(exp.data() + pos, H, n);
-                uint8_t pv[33]; pv[0] = 3; memcpy(pv + 1, o.V, 32);
-                model_hash(w, H, pv, 33);
-                uint32_t carry = o.counter; int chain = 0, maxchain = 0;
-                // V = V + H + C + counter (big-endian 256-bit)
-                uint8_t cb[32]; memset(cb, 0, 32);
-                cb[31] = (uint8_t)o.counter; cb[30] = (uint8_t)(o.counter >> 8); cb[29] = (uint8_t)(o.counter >> 16); cb[28] = (uint8_t)(o.counter >> 24);
-                carry = 0;
-                for (int i = 31; i >= 0; i--) {
-                    uint32_t s = (uint32_t)o.V[i] + H[i] + o.C[i] + cb[i] + carry;
-                    o.V[i] = (uint8_t)s; carry = s >> 8;
-                    if (carry) { chain++; if (chain > maxchain) maxchain = chain; } else chain = 0;
-                }
-                if (maxchain >= 2) bump(w, CT_P_PRNG_CARRY_CHAIN);
-                o.counter++;
-                pos += n;
-            }
-            if (!mism && ri < reqs.size()) { mism = true; why = "the generator made " + u2s(reqs.size()) + " entropy requests during this call, the model " + u2s(ri); }
-            if (!mism && size && memcmp(exp.data(), out.p, size) != 0) {
-                size_t k = 0; while (k < size && exp[k] == out.p[k]) k++;
-                mism = true; why = "output differs from Hash_DRBG model at byte " + u2s(k) + " of " + u2s(size);
-            }
-            uint32_t cc = o.counter == 1 ? 0 : o.counter < o.limit ? 1 : o.counter == o.limit ? 2 : 3;
-            state(w, 0x150000u | (cc << 8) | (uint32_t)std::min<size_t>(reqs.size(), 3) << 4 | (size == 0 ? 0 : size < 32 ? 1 : size == 32 ? 2 : size % 32 ? 3 : 4));
-            if (mism) { o.model_valid = false; report(w, model_prop, "drbg-mismatch", why); }
-            else check_pass(w, model_prop);
-        }
-        // --- C17 (3): full output blocks of one instance are pairwise distinct and not all-zero
-        if ((w.armed == C17 || w.armed == PR_NONE) && size >= 32 && o.blocks.size() < 4096) {
-            for (size_t b = 0; b + 32 <= size && o.blocks.size() < 4096; b += 32) {
-                if (all_zero(out.p + b, 32)) report(w, C17, "constant-output", "generator emitted an all-zero 32-byte block");
-                uint64_t h = hash_bytes(out.p + b, 32, 0xB10C);
-                for (uint64_t x : o.blocks) if (x == h) { report(w, C17, "constant-output", "generator emitted the same 32-byte block twice"); break; }
-                o.blocks.push_back(h);
-            }
-            check_pass(w, C17);
-        }
-        if (o.out_log.size() < (1u << 20)) o.out_log.insert(o.out_log.end(), out.p, out.p + std::min<size_t>(size, 8192));
-        for (auto &r : o.reqs) o.status_log.push_back(100 + r.k);
-        o.reqs.clear();
+        after_generate(w, t, o, out.p, size, model_prop, model_on);
         if (!out.tail_ok()) report(w, C15, "fence-broken", "PRNG generate wrote outside its output buffer");
         fence_check(w, o.m, C15, "PRNG state");
         note(w, t, index, 0, out.p, size);
